@@ -103,7 +103,7 @@ pub fn child(args: &[String]) -> i32 {
 }
 
 pub fn run(rep: &mut Rep) {
-    rep.rule = "seeded identities for boundary and random seeds compared with an independent derivation (Keccak-256, ChaCha20 block function, mask-and-reject sampling of a Montgomery residue) and with the documented vectors; commitment relations checked with the reference Poseidon; same seeds re-derived in 16 threads, 4 child processes and through RLN methods and the FFI; unseeded identities checked for relations, canonical encoding and distinctness. distinct_nontrivial = distinct (kind, seed label | entry point | thread) keys".into();
+    rep.rule = "seeded identities for boundary and random seeds compared with an independent derivation (Keccak-256, ChaCha20 block function, mask-and-reject sampling of a Montgomery residue) and with the documented vectors; commitment relations checked with the reference Poseidon; same seeds re-derived in 16 threads, 4 child processes and through RLN methods and the FFI; unseeded identities checked for relations, canonical encoding and distinctness; unseeded calls made right after 0..3 seeded calls on the same thread (8 threads making the same calls) must be outside the seeded generator's stream (first 24 elements, from-spec) and distinct across threads, and the seeded calls in between still give the reference values. distinct_nontrivial = distinct (kind, seed label | entry point | thread) keys".into();
     rep.assumptions = vec![
         "reference derivation follows rand_chacha 0.3 / arkworks 0.5 sampling as described in DESIGN.md Appendix A".into(),
         "documented vectors: the pinned values of rln/tests (seed bytes 0..9, 'A seed phrase example')".into(),
@@ -339,6 +339,64 @@ pub fn run(rep: &mut Rep) {
         }
         r.stratum(format!("unseeded|thread{t}"));
     });
+    // (6) unseeded calls right after seeded ones, on the same thread, through every pairing of entry points: the
+    // unseeded identity must not be a function of the seed (not in the seeded generator's stream, not repeated by
+    // another thread that made the same calls), and a seeded call after unseeded ones still gives the reference value
+    {
+        let seeds: Vec<Vec<u8>> = vec![b"".to_vec(), vec![0u8; 32], b"seed-A".to_vec(), (0u8..=9).collect(), vec![7u8; 100]];
+        let streams: Vec<HashSet<Vec<u8>>> = seeds.iter().map(|s| seeded_stream_ref(s, 24).iter().map(|f| fr_le32(f).to_vec()).collect()).collect();
+        let after: std::sync::Mutex<HashSet<Vec<u8>>> = std::sync::Mutex::new(HashSet::new());
+        par_shards(rep, 8, |t, r| {
+            let mut local: Vec<Vec<u8>> = vec![];
+            for round in 0..(if thorough { 40 } else { 6 }) {
+                for (si, seed) in seeds.iter().enumerate() {
+                    r.ev();
+                    // seeded call(s): 0..3 of them, plain or extended
+                    let k = (round + si + t) % 4;
+                    for j in 0..k {
+                        if (j + round) % 2 == 0 {
+                            let got = seeded_keygen(seed);
+                            if got != seeded_keygen_ref(seed) {
+                                r.violation("seeded_keygen:differs-from-reference:after-other-calls", json!({"seed": hex_short(seed), "thread": t}));
+                            }
+                        } else {
+                            let got = extended_seeded_keygen(seed);
+                            if got != extended_seeded_keygen_ref(seed) {
+                                r.violation("extended_seeded_keygen:differs-from-reference:after-other-calls", json!({"seed": hex_short(seed), "thread": t}));
+                            }
+                        }
+                    }
+                    // unseeded call(s) right after
+                    let mut vals: Vec<Fr> = vec![];
+                    let (s1, c1) = keygen();
+                    if c1 != poseidon_ref(&[s1]) {
+                        r.violation("keygen:commitment-relation", json!({"after_seeded_calls": k}));
+                    }
+                    vals.push(s1);
+                    let (tr, n, s2, _) = extended_keygen();
+                    if s2 != poseidon_ref(&[tr, n]) {
+                        r.violation("extended_keygen:relation", json!({"after_seeded_calls": k}));
+                    }
+                    vals.push(tr);
+                    vals.push(n);
+                    for v in vals {
+                        let b = fr_le32(&v).to_vec();
+                        if streams[si].contains(&b) {
+                            r.violation("unseeded-after-seeded:identity-is-a-function-of-the-seed", json!({"seed": hex_short(seed), "seeded_calls_before": k, "thread": t}));
+                        }
+                        local.push(b);
+                    }
+                    r.stratum(format!("unseeded-after-seeded|{k}-seeded-calls-before|seed{si}"));
+                }
+            }
+            let mut g = after.lock().unwrap();
+            for l in local {
+                if !g.insert(l) {
+                    r.violation("unseeded-after-seeded:repeated-identity-across-threads", json!({"thread": t}));
+                }
+            }
+        });
+    }
     rep.note("unseeded_distinct_identities", json!(all.lock().unwrap().len()));
     rep.note("seeds", json!(sl.len()));
 }
